@@ -427,7 +427,7 @@ def synthetic_split_record(sp):
     on = bool(np.all(np.isfinite(H)) and np.max(np.abs(np.asarray(H) * T * T - Hs)) <= 1e-5)
     D, ok = ridge_by_homogeneity(H, H2, 4.0, 8 * n)
     rec.update({"T": T, "rows": rows, "S": 1, "W": [int(x) for x in sp["w"]], "wexact": True, "exact": True, "ST2": T * T,
-                "Hs": Hs.astype(np.int64).tolist() if on else [], "rows_n": shape2(H)[0] if on else -1, "cols_n": shape2(H)[1],
+                "Hs": Hs.astype(np.int64).tolist() if on else [], "rows_n": shape2(H)[0], "cols_n": shape2(H)[1], "offlattice": not on,
                 "wlen": n, "sym": sym_raw(H), "D": D, "ridge_ok": ok, "k": 3, "desc": {"from": "machine"}})
     return rec
 
@@ -490,7 +490,7 @@ def split_record(name, verts, seed, adaptive):
     finite = bool(np.all(np.isfinite(H)) and H.ndim == 2 and np.max(np.abs(Hs)) < 2 ** 31)
     D, ok = ridge_by_homogeneity(H, H2, f, 8 * n) if finite else ([], False)
     rec.update({"T": T, "rows": cross_rows(lin, T), "S": S, "W": W, "wexact": wexact, "exact": False, "ST2": int(ST2),
-                "Hs": Hs.astype(np.int64).tolist() if finite else [], "rows_n": shape2(H)[0], "cols_n": shape2(H)[1],
+                "Hs": Hs.astype(np.int64).tolist() if finite else [], "rows_n": shape2(H)[0], "cols_n": shape2(H)[1], "offlattice": not finite,
                 "wlen": int(w.shape[0]) if w.ndim == 1 else -1, "sym": sym_raw(H), "D": D, "ridge_ok": ok, "k": k,
                 "desc": dict(desc, verts=name)})
     return rec
